@@ -257,19 +257,34 @@ func H_C10_independence() {
 	payload := vBlob("payload")
 	sig := vBlobN("sig", 1, 1000)
 	a := &Sign1Message{Headers: Headers{Protected: prot, Unprotected: UnprotectedHeader(mkBenignMap("ua", 1, false))}, Payload: payload, Signature: sig}
-	b := &Sign1Message{Headers: Headers{Protected: prot, Unprotected: UnprotectedHeader(mkBenignMap("ub", 1, false))}, Payload: payload, Signature: sig}
+	// the other parent's unprotected bucket is anything at all, including content that could not be encoded
+	// (the countersignature does not cover it): another benign map, a text kid, the pending countersignature
+	// itself (embed, then sign), a nil abbreviated countersignature
+	ub := UnprotectedHeader(mkBenignMap("ub", 1, false))
+	pending := NewCountersignature()
+	switch vChoose("ub.kind", 4) {
+	case 1:
+		ub = UnprotectedHeader{HeaderLabelKeyID: "text kid"}
+	case 2:
+		ub = UnprotectedHeader{HeaderLabelCounterSignatureV2: pending}
+	case 3:
+		ub = UnprotectedHeader{HeaderLabelCounterSignature0: nil}
+	}
+	b := &Sign1Message{Headers: Headers{Protected: prot, Unprotected: ub}, Payload: payload, Signature: sig}
 	ext := mkExternal("ext")
 	spA := &spySigner{alg: AlgorithmES256, sig: []byte{1}}
 	spB := &spySigner{alg: AlgorithmES256, sig: []byte{1}}
 	abbreviated := vChoose("abbreviated", 2) == 1
+	var ea, eb error
 	if abbreviated {
-		_, ea := Countersign0(nil, spA, a, ext)
-		_, eb := Countersign0(nil, spB, b, ext)
-		vAssume(ea == nil && eb == nil)
+		_, ea = Countersign0(nil, spA, a, ext)
+		_, eb = Countersign0(nil, spB, b, ext)
 	} else {
-		ca, cb := NewCountersignature(), NewCountersignature()
-		vAssume(ca.Sign(nil, spA, a, ext) == nil && cb.Sign(nil, spB, b, ext) == nil)
+		ea = NewCountersignature().Sign(nil, spA, a, ext)
+		eb = pending.Sign(nil, spB, b, ext)
 	}
+	vAssert("independence: the outcome does not depend on the parent's unprotected headers", (ea == nil) == (eb == nil))
+	vAssume(ea == nil && eb == nil)
 	vAssert("independence: parents differing only in unprotected headers give the same ToBeSigned", vRopeEq(spA.content, spB.content))
 	// full vs abbreviated over the same parent are different byte strings (context differs)
 	spF := &spySigner{alg: AlgorithmES256, sig: []byte{1}}
